@@ -191,6 +191,28 @@ def deep_case(args):
                         if abs(have - grad[i]) > 1e-7 * (1 + abs(grad[i])):
                             res['bad'] = 'gradient of a deep tree differs from the closed form (i=%d: %r vs %r)' % (i, have, grad[i])
                             break
+        if kind == 'shared' and res['bad'] is None:
+            # the same accumulation over FEW variables: x0**2 - c1*x1 - c2*x2 - c3*x0 - ... (every variable recurs), against the
+            # closed form and against the other association (x0**2 - (sum of the linear terms))
+            m = 3
+            ys = xs[:m]
+            cs = [1.0 + (i % 5) * 0.5 for i in range(n)]
+            acc2 = ys[0] ** 2
+            for i in range(n):
+                acc2 = (acc2 - cs[i] * ys[i % m]) if op == '-' else (acc2 + cs[i] * ys[i % m])
+            sign = -1.0 if op == '-' else 1.0
+            lin = [sign * sum(c for i, c in enumerate(cs) if i % m == j) for j in range(m)]
+            y0 = {v.name: 0.75 + 0.5 * j for j, v in enumerate(ys)}
+            wantg = [2 * y0[ys[0].name] + lin[0], lin[1], lin[2]]
+            for j in range(m):
+                have = float(np.asarray(autodiff.gradient(acc2, ys[j]).evaluate(y0)))
+                if abs(have - wantg[j]) > 1e-9 * (1 + abs(wantg[j])):
+                    res['bad'] = 'gradient of an accumulation over recurring variables differs from the closed form (d/d%s: %r vs %r)' % (ys[j].name, have, wantg[j])
+                    break
+            if res['bad'] is None:
+                cg = np.asarray(compiler.compile_gradient(acc2, ys)(np.array([y0[v.name] for v in ys])), dtype=float).reshape(-1)
+                if np.max(np.abs(cg - np.array(wantg))) > 1e-9 * (1 + np.max(np.abs(wantg))):
+                    res['bad'] = 'compiled gradient of an accumulation over recurring variables differs from the closed form'
         if kind == 'compile' and res['bad'] is None:
             f = compiler.compile_expression(acc, xs)
             have = float(np.asarray(f(xv)))
@@ -254,6 +276,9 @@ def run(report, tier):
                     items.append(('gradient', op, n, base))
         items.append(('solve', '+', 401 if tier == 'quick' else 900, base))
         items.append(('gradient', '+', 900, base))
+    for n in (8, 120, 600):
+        for op in '+-':
+            items.append(('shared', op, n, 'var'))
     for part in histrun.parallel(deep_chunk, items, chunk=3):
         report.merge(part)
     return report.finish(
